@@ -67,9 +67,10 @@ type PField struct {
 type partialCase struct {
 	Fields  []PField `json:"fields"`
 	Omit    []string `json:"omit,omitempty"`
-	Replace string   `json:"replace,omitempty"` // "Field:NewType tag" for one field, or ""
-	Kind    string   `json:"kind,omitempty"`    // "" ok · nonstruct · noorigin
-	After   bool     `json:"after,omitempty"`   // rejection kinds: a well-formed declaration `type a origin.T` stands before the ill-formed one
+	Replace string   `json:"replace,omitempty"`       // "Field:NewType tag" for one field, or ""
+	Kind    string   `json:"kind,omitempty"`          // "" ok · nonstruct · noorigin
+	After   bool     `json:"after,omitempty"`         // rejection kinds: a well-formed declaration `type a origin.T` stands before the ill-formed one
+	WithDC  bool     `json:"with_deepcopy,omitempty"` // the package also holds a struct enabled for the deepcopy generator (which runs first, in the same Execute) with fields of the foreign named types
 	res     *partialRes
 }
 
@@ -125,10 +126,16 @@ func (c *partialCase) partialSrc(pkg, origin string) string {
 		// the replacement type: a partial struct of the origin package's Item, generated in this package as `Item`
 		fmt.Fprintf(&b, "\n// +gengo:partialstruct\ntype item %s.Item\n", origin)
 	}
+	if c.WithDC {
+		fmt.Fprintf(&b, "\n// +gengo:deepcopy\ntype Holder struct {\n\tThing lib.Thing\n\tItem  %s.Item\n\tWhen  time.Time\n\tNames []string\n}\n", origin)
+		return strings.Replace(b.String(), "import "+fmt.Sprintf("%q", genMod+"/"+origin), fmt.Sprintf("import (\n\t\"time\"\n\n\t%q\n\t%q\n)", genMod+"/lib", genMod+"/"+origin), 1)
+	}
 	return b.String()
 }
 
-const partialLib = "package lib\n\ntype Thing struct {\n\tN int\n\tS []int\n}\n"
+// lib.Thing is a type as API packages declare them: it brings its own DeepCopy / DeepCopyInto (declared last).  The partial
+// struct generator looks for DeepCopyAs / DeepCopyIntoAs, which it does not have.
+const partialLib = "package lib\n\ntype Thing struct {\n\tN int\n\tS []int\n}\n\nfunc (in *Thing) Len() int { return len(in.S) }\n\nfunc (in *Thing) DeepCopy() *Thing {\n\tif in == nil {\n\t\treturn nil\n\t}\n\tout := new(Thing)\n\tin.DeepCopyInto(out)\n\treturn out\n}\n\nfunc (in *Thing) DeepCopyInto(out *Thing) {\n\t*out = *in\n\tif in.S != nil {\n\t\tout.S = append([]int(nil), in.S...)\n\t}\n}\n"
 
 func (c *partialCase) replacedField() string {
 	if c.Replace == "" {
@@ -313,7 +320,8 @@ func (c *partialCase) probe(pkg, origin string) string {
 }
 
 func partialJob(cases []*partialCase) *genJob {
-	job := &genJob{Files: map[string]string{"lib/lib.go": partialLib}, Gens: []string{"partialstruct"}, Runs: 1, ProbeCommon: partialProbeCommon, Probes: map[string]string{}}
+	// both shipped generators in one Execute, deepcopy first: what one of them learnt about a type must not leak into the other
+	job := &genJob{Files: map[string]string{"lib/lib.go": partialLib}, Gens: []string{"deepcopy", "partialstruct"}, Runs: 1, ProbeCommon: partialProbeCommon, Probes: map[string]string{}}
 	for i, c := range cases {
 		pkg, origin := fmt.Sprintf("p%d", i), fmt.Sprintf("o%d", i)
 		job.Files[origin+"/o.go"] = c.originSrc(origin)
@@ -510,9 +518,14 @@ func (c *partialCase) Oracle(out string) string {
 
 func (c *partialCase) Shrinks() []Case {
 	var out []Case
+	if c.WithDC {
+		n := *c
+		n.WithDC, n.res = false, nil
+		out = append(out, &n)
+	}
 	for i := range c.Fields {
 		if len(c.Fields) > 1 {
-			n := &partialCase{Fields: append(append([]PField{}, c.Fields[:i]...), c.Fields[i+1:]...), Replace: c.Replace, Kind: c.Kind, After: c.After}
+			n := &partialCase{Fields: append(append([]PField{}, c.Fields[:i]...), c.Fields[i+1:]...), Replace: c.Replace, Kind: c.Kind, After: c.After, WithDC: c.WithDC}
 			for _, o := range c.Omit {
 				if o != c.Fields[i].Name {
 					n.Omit = append(n.Omit, o)
@@ -525,19 +538,19 @@ func (c *partialCase) Shrinks() []Case {
 		}
 	}
 	for i := range c.Omit {
-		out = append(out, &partialCase{Fields: c.Fields, Omit: append(append([]string{}, c.Omit[:i]...), c.Omit[i+1:]...), Replace: c.Replace, Kind: c.Kind, After: c.After})
+		out = append(out, &partialCase{Fields: c.Fields, Omit: append(append([]string{}, c.Omit[:i]...), c.Omit[i+1:]...), Replace: c.Replace, Kind: c.Kind, After: c.After, WithDC: c.WithDC})
 	}
 	if c.Replace != "" {
-		out = append(out, &partialCase{Fields: c.Fields, Omit: c.Omit, Kind: c.Kind, After: c.After})
+		out = append(out, &partialCase{Fields: c.Fields, Omit: c.Omit, Kind: c.Kind, After: c.After, WithDC: c.WithDC})
 	}
 	for i, f := range c.Fields {
 		if f.Tag != "" {
-			n := &partialCase{Fields: append([]PField{}, c.Fields...), Omit: c.Omit, Replace: c.Replace, Kind: c.Kind, After: c.After}
+			n := &partialCase{Fields: append([]PField{}, c.Fields...), Omit: c.Omit, Replace: c.Replace, Kind: c.Kind, After: c.After, WithDC: c.WithDC}
 			n.Fields[i].Tag = ""
 			out = append(out, n)
 		}
 		if f.Ty != 0 {
-			n := &partialCase{Fields: append([]PField{}, c.Fields...), Omit: c.Omit, Replace: c.Replace, Kind: c.Kind, After: c.After}
+			n := &partialCase{Fields: append([]PField{}, c.Fields...), Omit: c.Omit, Replace: c.Replace, Kind: c.Kind, After: c.After, WithDC: c.WithDC}
 			n.Fields[i].Ty = 0
 			out = append(out, n)
 		}
@@ -548,6 +561,11 @@ func (c *partialCase) Shrinks() []Case {
 func (c *partialCase) Key() string {
 	if c.unnamedIfaceClass() {
 		return "class: " + partialIfaceClass
+	}
+	if c.WithDC {
+		n := *c
+		n.WithDC = false
+		return n.Key() + " with-deepcopy"
 	}
 	var fs []string
 	for _, f := range c.Fields {
@@ -605,6 +623,7 @@ func genPartial(r *Rng) *partialCase {
 			c.Omit = append(c.Omit, f.Name)
 		}
 	}
+	c.WithDC = r.Chance(30)
 	if r.Chance(25) {
 		// replace a field of the origin's named struct type by the partial struct generated for that type
 		overlap := r.Chance(35) // the replace tag may name a field the omit tag excludes: omitted stays omitted
@@ -734,7 +753,7 @@ func init() {
 			Name: "origins", Quick: 500, Thorough: 4000, New: func() Case { return &partialCase{} },
 			Gen:      func(r *Rng, i int) Case { return genPartial(r) },
 			BatchRun: partialBatch, ShrinkBudget: 25, MaxShrinks: 6,
-			Rule: "origin structs in a second package with 1–6 fields over a menu of 22 types (scalars, slices, maps, arrays, pointers, named types of the origin's package, of another module package and of time, error, any, a defined interface, exported aliases of the origin's package for a struct of that package, for an unexported struct, for a struct of an internal package and for string) and 8 tags (dots, commas, brackets, non-ASCII, %v, @x), every combination of omit tags and sometimes a replace tag (a third of them naming a field that is also omitted); `type x origin.T` generated with the real generator (100 per Execute), compiled, and a probe reflecting over the generated struct vs the origin (names, order, types, tags) and running DeepCopyAs on a value whose containers are allocated but empty, on a filled value and on nil; compared with the model: field list as name / printed type / tag",
+			Rule: "origin structs in a second package with 1–6 fields over a menu of 22 types (scalars, slices, maps, arrays, pointers, named types of the origin's package, of another module package and of time, error, any, a defined interface, exported aliases of the origin's package for a struct of that package, for an unexported struct, for a struct of an internal package and for string) and 8 tags (dots, commas, brackets, non-ASCII, %v, @x), every combination of omit tags and sometimes a replace tag; the deepcopy generator runs first in the same Execute, and in a third of the packages it has a struct to generate for whose fields have the same foreign named types (lib.Thing brings its own DeepCopy methods) (a third of them naming a field that is also omitted); `type x origin.T` generated with the real generator (100 per Execute), compiled, and a probe reflecting over the generated struct vs the origin (names, order, types, tags) and running DeepCopyAs on a value whose containers are allocated but empty, on a filled value and on nil; compared with the model: field list as name / printed type / tag",
 		},
 		{
 			Name: "unnamed-interfaces", Quick: 40, Thorough: 300, New: func() Case { return &partialCase{} },
